@@ -556,4 +556,180 @@ theorem utf8ToBig5_exact_after_retry (st2 : Loader) (ru : List Row) (hT : tableO
   rw [hT]
   exact u2b_table_exact ru hwf cp h1 h2
 
+/-! #### K. the header line: the loader drops line 1 unconditionally -/
+
+/-- what the unconditional `lines = lines[1:]` does, for EVERY file content: the loaded rows are all rows of the file
+when the first line is not a row; when the first line IS a row, exactly that row is lost. -/
+theorem loader_drops_exactly_first_line (content : Bytes) (all : List Row) (h : parseAllRows content = .ok all) :
+    (parseLine (firstLine content) = .ok none → parseTable content = .ok all) ∧
+    (∀ r, parseLine (firstLine content) = .ok (some r) → ∃ rows, parseTable content = .ok rows ∧ all = r :: rows) := by
+  unfold parseAllRows at h
+  unfold parseTable firstLine
+  cases hs : split 10 content with
+  | nil => exact absurd hs (splitAux_ne_nil 10 content [] [])
+  | cons first rest =>
+    rw [hs] at h
+    simp only [List.mapM_cons, bind, Except.bind] at h
+    have hsl : sliceFrom (first :: rest) 1 = .ok rest := by
+      simp only [sliceFrom, slice]; simp
+    simp only [List.headD_cons, hsl, bind, Except.bind]
+    cases h1 : parseLine first with
+    | error e => simp [h1] at h
+    | ok o =>
+      simp only [h1] at h
+      cases h2 : List.mapM parseLine rest with
+      | error e => simp [h2] at h
+      | ok rs =>
+        simp only [h2, pure, Except.pure] at h
+        cases h
+        constructor
+        · intro ho; cases ho; simp [pure, Except.pure]
+        · intro r ho; cases ho; exact ⟨_, rfl, by simp⟩
+
+/-- kernel evaluation over the regenerated first lines: neither real table file starts with a data row, so the
+loader loses nothing (removing the header line from a file breaks this theorem). -/
+theorem real_tables_first_line_is_no_row :
+    parseLine Gen.Big5.b2uFirstLine = .ok none ∧ parseLine Gen.Big5.u2bFirstLine = .ok none := by
+  constructor <;> rfl
+
+/-- witness of the broken combination: a file in UAO format WITHOUT a header line loses its first row. -/
+theorem headerless_file_loses_first_row (k cp : Nat) (rows : List (Nat × Nat)) (cr : Bool) (hk : k < 65536) (hc : cp < 65536)
+    (hr : ∀ r ∈ rows, r.1 < 65536 ∧ r.2 < 65536) :
+    parseTable (renderRow k cp cr ++ 10 :: (rows.map fun r => renderRow r.1 r.2 cr ++ [10]).flatten) = .ok (rows.map rowOf) :=
+  parseTable_renderFile (renderRow k cp cr) rows cr (newline_not_in_renderRow k cp cr hk hc) hr
+
+/-! #### L. the start-up sequence -/
+
+/-- with both files readable, `types.InitConfig` succeeds from any state and leaves the UTF-8→Big5 lookups of the file —
+provided the map was empty or already held them. -/
+theorem initBig5_readable (fs : FS) (pb pu : String) (cb cu : Bytes) (rb ru : List Row) (st : Loader)
+    (hb : fs pb = some cb) (hpb : parseTable cb = .ok rb) (hu : fs pu = some cu) (hpu : parseTable cu = .ok ru)
+    (hpre : st.u2b.size = 0 ∨ tableOf st.u2b = tableOf (u2bMap ru)) :
+    ∃ st', initBig5 fs pb pu st = .ok (st', false) ∧ tableOf st'.u2b = tableOf (u2bMap ru) := by
+  unfold initBig5 initB2U initU2B
+  by_cases h1 : st.b2u.size > 0 <;> by_cases h2 : st.u2b.size > 0
+  · refine ⟨st, by simp [h1, h2, bind, Except.bind], ?_⟩
+    rcases hpre with h | h
+    · omega
+    · exact h
+  · refine ⟨{ st with u2b := u2bMapFrom st.u2b ru }, by simp [h1, h2, hu, hpu, bind, Except.bind, pure, Except.pure], ?_⟩
+    exact tableOf_u2bMapFrom _ (by omega) ru
+  · refine ⟨{ st with b2u := b2uMapFrom st.b2u rb }, by simp [h1, h2, hb, hpb, bind, Except.bind, pure, Except.pure], ?_⟩
+    rcases hpre with h | h
+    · omega
+    · exact h
+  · refine ⟨{ b2u := b2uMapFrom st.b2u rb, u2b := u2bMapFrom st.u2b ru },
+      by simp [h1, h2, hb, hpb, hu, hpu, bind, Except.bind, pure, Except.pure], ?_⟩
+    exact tableOf_u2bMapFrom _ (by omega) ru
+
+/-- once the tables are loaded, whatever is initialised afterwards (in any order, any number of times) succeeds, and a
+site name converted then is converted with the file's table. -/
+theorem boot_after_types (fs : FS) (pb pu : String) (cb cu : Bytes) (rb ru : List Row) (name : Bytes)
+    (hb : fs pb = some cb) (hpb : parseTable cb = .ok rb) (hu : fs pu = some cu) (hpu : parseTable cu = .ok ru) :
+    ∀ (order : List String) (b : Boot), tableOf b.loader.u2b = tableOf (u2bMap ru) →
+      ∃ b', boot fs pb pu name order b = .ok (b', false) ∧ tableOf b'.loader.u2b = tableOf (u2bMap ru) ∧
+        b'.bbsnameBig5 = if "ptttype" ∈ order then some (u2bSpec (tableOf (u2bMap ru)) name) else b.bbsnameBig5 := by
+  intro order
+  induction order with
+  | nil => intro b hT; exact ⟨b, rfl, hT, by simp⟩
+  | cons p ps ih =>
+    intro b hT
+    by_cases ht : p = "types"
+    · obtain ⟨st', h1, h2⟩ := initBig5_readable fs pb pu cb cu rb ru b.loader hb hpb hu hpu (Or.inr hT)
+      obtain ⟨b', e1, e2, e3⟩ := ih { b with loader := st' } h2
+      refine ⟨b', ?_, e2, ?_⟩
+      · simp only [boot, bootStep, ht, if_true, h1, bind, Except.bind, pure, Except.pure]
+        simpa using e1
+      · rw [e3]; simp [ht]
+    · by_cases hp : p = "ptttype"
+      · obtain ⟨b', e1, e2, e3⟩ := ih { b with bbsnameBig5 := some (u2bSpec (tableOf (u2bMap ru)) name) } hT
+        refine ⟨b', ?_, e2, ?_⟩
+        · have hne : ¬ ("ptttype" = "types") := by decide
+          simp only [boot, bootStep, hp, hne, if_true, if_false, utf8ToBig5_total, hT, bind, Except.bind, pure, Except.pure]
+          simpa using e1
+        · rw [e3]; simp [hp]
+      · obtain ⟨b', e1, e2, e3⟩ := ih b hT
+        refine ⟨b', ?_, e2, ?_⟩
+        · simp only [boot, bootStep, ht, hp, if_false, bind, Except.bind, pure, Except.pure]
+          simpa using e1
+        · rw [e3]
+          have : ("ptttype" ∈ p :: ps) = ("ptttype" ∈ ps) := by
+            simp [List.mem_cons, Ne.symm hp]
+          simp only [this]
+
+/-- the property clause for the start-up: in a FRESH process (empty maps), for every order of the `InitConfig` calls in
+which `types` comes before the last `ptttype` — and no earlier `types` call is needed — the site name kept for the
+lifetime of the process is the table-exact conversion of the configured name. -/
+theorem startup_converts_with_loaded_tables (fs : FS) (pb pu : String) (cb cu : Bytes) (rb ru : List Row) (name : Bytes)
+    (hb : fs pb = some cb) (hpb : parseTable cb = .ok rb) (hu : fs pu = some cu) (hpu : parseTable cu = .ok ru) :
+    ∀ (pre rest : List String) (b : Boot), "types" ∉ pre → "ptttype" ∈ rest → b.loader.u2b.size = 0 →
+      ∃ b', boot fs pb pu name (pre ++ "types" :: rest) b = .ok (b', false) ∧
+        b'.bbsnameBig5 = some (u2bSpec (tableOf (u2bMap ru)) name) := by
+  intro pre
+  induction pre with
+  | nil =>
+    intro rest b _ hin h0
+    obtain ⟨st', h1, h2⟩ := initBig5_readable fs pb pu cb cu rb ru b.loader hb hpb hu hpu (Or.inl h0)
+    obtain ⟨b', e1, _, e3⟩ := boot_after_types fs pb pu cb cu rb ru name hb hpb hu hpu rest { b with loader := st' } h2
+    refine ⟨b', ?_, by rw [e3]; simp [hin]⟩
+    simp only [List.nil_append, boot, bootStep, if_true, h1, bind, Except.bind, pure, Except.pure]
+    simpa using e1
+  | cons p ps ih =>
+    intro rest b hnot hin h0
+    have hp : p ≠ "types" := fun e => hnot (by simp [e])
+    have hps : "types" ∉ ps := fun e => hnot (by simp [e])
+    by_cases hpt : p = "ptttype"
+    · obtain ⟨b', e1, e2⟩ := ih rest { b with bbsnameBig5 := some (u2bSpec (tableOf b.loader.u2b) name) } hps hin h0
+      refine ⟨b', ?_, e2⟩
+      have hne : ¬ ("ptttype" = "types") := by decide
+      simp only [List.cons_append, boot, bootStep, hpt, hne, if_true, if_false, utf8ToBig5_total, bind, Except.bind, pure,
+        Except.pure]
+      simpa using e1
+    · obtain ⟨b', e1, e2⟩ := ih rest b hps hin h0
+      refine ⟨b', ?_, e2⟩
+      simp only [List.cons_append, boot, bootStep, hp, hpt, if_false, bind, Except.bind, pure, Except.pure]
+      simpa using e1
+
+/-- kernel evaluation over the regenerated call order of initgin.InitAllConfig: `types.InitConfig` is called before
+`ptttype.InitConfig`, and `ptttype` is not called before it (moving ptttype to the front breaks this theorem). -/
+theorem startup_order_pinned :
+    ∃ pre rest, Gen.Big5.initOrder = pre ++ "types" :: rest ∧ "types" ∉ pre ∧ "ptttype" ∉ pre ∧ "ptttype" ∈ rest :=
+  ⟨["api"], ["ptttype", "boardd"], by decide, by decide, by decide, by decide⟩
+
+/-- the only conversion performed outside package types is the one of the site name (regenerated list of call sites:
+a new start-up conversion shows up here and has to be driven). -/
+theorem conversion_callers_pinned : Gen.Big5.conversionCallers = [("ptttype", "setBBSName", "Utf8ToBig5")] := by decide
+
+/-- hence the real start-up, for every site name and all table contents: -/
+theorem real_startup_bbsname_exact (fs : FS) (pb pu : String) (cb cu : Bytes) (rb ru : List Row) (name : Bytes) (b : Boot)
+    (hb : fs pb = some cb) (hpb : parseTable cb = .ok rb) (hu : fs pu = some cu) (hpu : parseTable cu = .ok ru)
+    (h0 : b.loader.u2b.size = 0) :
+    ∃ b', boot fs pb pu name Gen.Big5.initOrder b = .ok (b', false) ∧
+      b'.bbsnameBig5 = some (u2bSpec (tableOf (u2bMap ru)) name) := by
+  obtain ⟨pre, rest, e, h1, _, h3⟩ := startup_order_pinned
+  rw [e]
+  exact startup_converts_with_loaded_tables fs pb pu cb cu rb ru name hb hpb hu hpu pre rest b h1 h3 h0
+
+/-- witness of the broken rule: with `ptttype` first (and not again after `types`), a fresh process converts the
+site name against EMPTY tables — every lookup misses, every non-ASCII character becomes FF FD — and keeps that. -/
+theorem startup_ptttype_first_uses_empty_table (fs : FS) (pb pu : String) (cb cu : Bytes) (rb ru : List Row) (name : Bytes)
+    (b : Boot) (hb : fs pb = some cb) (hpb : parseTable cb = .ok rb) (hu : fs pu = some cu) (hpu : parseTable cu = .ok ru)
+    (h0 : b.loader.u2b.size = 0) (h0' : b.loader.b2u.size = 0) :
+    ∃ b', boot fs pb pu name ["ptttype", "api", "types", "boardd"] b = .ok (b', false) ∧
+      b'.bbsnameBig5 = some (u2bSpec (fun _ => none) name) := by
+  have hT : tableOf b.loader.u2b = fun _ => none := by
+    funext k; exact getElem?_of_size_zero _ h0 k
+  have hz : ¬ (b.loader.b2u.size > 0) := by omega
+  have hz' : ¬ (b.loader.u2b.size > 0) := by omega
+  refine ⟨{ loader := { b2u := b2uMapFrom b.loader.b2u rb, u2b := u2bMapFrom b.loader.u2b ru },
+             bbsnameBig5 := some (u2bSpec (fun _ => none) name) }, ?_, rfl⟩
+  · have n1 : ¬ ("ptttype" = "types") := by decide
+    have n2 : ¬ ("api" = "types") := by decide
+    have n3 : ¬ ("api" = "ptttype") := by decide
+    have n4 : ¬ ("boardd" = "types") := by decide
+    have n5 : ¬ ("boardd" = "ptttype") := by decide
+    simp only [boot, bootStep, n1, n2, n3, n4, n5, if_true, if_false, utf8ToBig5_total, hT, initBig5, initB2U, initU2B,
+      hz, hz', hb, hpb, hu, hpu, bind, Except.bind, pure, Except.pure]
+    simp
+
 end PttVerif.C17.Props
